@@ -232,12 +232,23 @@ func verifExtfxretryCall(t testing.TB, p verifExtfxretryPlan, tr *verifExtfxretr
 	select {
 	case err := <-done:
 		tr.emit(verifExtfxretryRet(err))
-	case <-time.After(verifExtfxretryWatchdog):
-		close(returned)
-		b, _ := json.Marshal(p)
-		t.Fatalf("ext-fxretry: call did not return within the watchdog (infrastructure): %s", b)
+	case <-time.After(verifExtfxretryDog()):
+		// every plan can return; what this means is the spec's business (RetryTrace: stuck)
+		verifExtfxretryStuck.Add(1)
+		tr.emit(verifEv{"e": "stuck"})
 	}
 	close(returned)
+}
+
+// The first three stuck calls wait the full watchdog; after that the run is failing anyway and the
+// remaining calls use a short one, so that a broken retry does not cost 30 s per call.
+var verifExtfxretryStuck atomic.Int32
+
+func verifExtfxretryDog() time.Duration {
+	if verifExtfxretryStuck.Load() >= 3 {
+		return 2 * time.Second
+	}
+	return verifExtfxretryWatchdog
 }
 
 // verifExtfxretryQuiesce waits until every goroutine created by fx.retry is gone or blocked
